@@ -197,7 +197,7 @@ def _worker(item):
 
 
 def configs(thorough):
-    shapes = [(3, 2), (2, 3)] + ([(3, 3), (4, 2), (1, 2), (2, 1)] if thorough else [])
+    shapes = [(3, 2), (2, 3)] + ([(3, 3), (1, 2), (2, 1)] if thorough else [])
     for (N, T), inter in itertools.product(shapes, (True, False)):
         yield dict(N=N, T=T, batch=(), inter=inter, family="all", steps=1)
         yield dict(N=N, T=T, batch=(), inter=inter, family="small", steps=2 if not thorough else 3)
